@@ -973,7 +973,10 @@ def rule_value_shape(prop, repo, cv, entries):
             kind, ok = scalar_shape(cv, repo, o.value.fields[0], n, ap, reducing)
             kinds.setdefault(kind, set()).add(n)
             want = "strict" if n < 32 else ("wide" if n > 32 else None)
-            if not ok or (want and kind != want) or (n == 32 and kind not in ("strict", "reducing")):
+            # below 32 bytes the integer is < 2^(8n) ≤ 2^248 < the modulus: the range check cannot fail, so the reducing constructor
+            # (which then reduces nothing) is the same function as the strict one
+            small = n < 32 and 2 ** (8 * n) <= min(repo.P.q, repo.P.r)
+            if not ok or (want and kind != want and not (small and kind == "reducing")) or (n == 32 and kind not in ("strict", "reducing")):
                 bad.append((n, kind, repr(o.value)[:120]))
         R.check(not bad and kinds, "%s:value:%s" % (prop, path), "%s: accepted value is not the (padded) big-endian integer of the input, suitably reduced: %s" % (path, bad[:2]),
                 b.file_line(), path, sample={"fn": path, "by_length": {k: "%d..%d" % (min(v), max(v)) for k, v in kinds.items()}})
